@@ -22,7 +22,8 @@ LEVEL_TEXT = ("Requests and notifications over {core methods, registered tool/re
               "behaviours (returns str/dict/list/None/bytes/object, raises 6 exception types, wrong signature) x ids x "
               "message representation are dispatched; each outcome must be exactly one valid response with the same id "
               "(or none for notifications) with the documented error class, and nothing may escape."
-              " An older and a newer server object with conflicting registrations live in the same process around the server under test.")
+              " An older and a newer server object with conflicting registrations live in the same process around the server under test."
+              ' Also exceptions whose str() fails, tool names and URIs that a normalising lookup would conflate.')
 LEVEL_NOTE = ("Trusted: vf/ref.py validator; the error-class table in this file (where the statement is silent - empty "
               "method string, non-hashable names, bad arguments to a known tool - every reasonable code is accepted).")
 RULE = ("case = (method, id or none, params shape, representation). Non-trivial: all. distinct = hash(case)+hash(outcome "
